@@ -48,7 +48,7 @@ def tset(xs) -> str:
 
 def dom(**kw) -> dict:
     base = dict(ALLOWFORCE=AF4, RESOLVES=["off"], STUBMODES=["none"], LAYOUTS=["flat", "chain"], TOPS=TOPS6, KIDSA=K4, KIDSB=K4,
-                TOPFAULTS=F4, KIDFAULTS=F4, EXTFAULTS=["none"], EXTSTYLES=["none"], EXTPRIVATES=[False], EXTKINDS=["missing"], PATHMUTS=["none"], SUBMODS=[True], OBJSPECS=["name"], ENTRIES=["load"], ONPATHS=[False])
+                TOPFAULTS=F4, KIDFAULTS=F4, EXTFAULTS=["none"], EXTSTYLES=["none"], EXTPRIVATES=[False], EXTKINDS=["missing"], PATHMUTS=["none"], SUBMODS=[True], OBJSPECS=["name"], ENTRIES=["load"], ONPATHS=[False], WALKS=["none"])
     base.update(kw)
     return base
 
@@ -83,6 +83,9 @@ DOMAINS = {
         # the search directory is already on sys.path; bodies leave sys.path alone / modify it in place / rebind it
         "onpath": dom(ONPATHS=[True], ENTRIES=["load", "attrs"], PATHMUTS=["none", "inplace", "rebind"], LAYOUTS=["flat"], TOPS=["py", "sofile"],
                       KIDSA=["so", "py", "missing"], KIDSB=["missing"], TOPFAULTS=["none", "exit"], KIDFAULTS=["none"]),
+        # failures raised while the members of an imported module are enumerated (lazy attribute, PEP 562), not by its body
+        "walk": dom(WALKS=["ok", "dep", "exit"], LAYOUTS=["flat"], TOPS=["py", "so", "sofile", "zip"], KIDSA=["py", "so", "missing"], KIDSB=["missing"],
+                    STUBMODES=["none", "inpkg"], TOPFAULTS=["none"], KIDFAULTS=["none"]),
         # stubs: in-package __init__.pyi, stubs-only package with / without find_stubs_package
         "stubs": dom(STUBMODES=["inpkg", "ext", "find", "find+ext"], LAYOUTS=["flat"], KIDSA=["py", "so", "missing"], KIDSB=["missing"],
                      TOPFAULTS=["none", "raises"], KIDFAULTS=["none", "missingdep"]),
@@ -110,6 +113,8 @@ DOMAINS = {
                      TOPFAULTS=["none", "raises"], KIDFAULTS=["none", "exit"], EXTSTYLES=["none", "name", "star"], EXTKINDS=["py", "sofile"]),
         "onpath": dom(ONPATHS=[True], ENTRIES=["load", "attrs"], PATHMUTS=["none", "inplace", "rebind"], TOPS=["py", "so", "ns", "sofile", "zip"],
                       KIDSA=["so", "py", "missing"], KIDSB=["so", "missing"], TOPFAULTS=["none", "exit", "raises"], KIDFAULTS=["none", "raises"]),
+        "walk": dom(WALKS=["ok", "dep", "exit"], LAYOUTS=["flat"], TOPS=["py", "so", "sofile", "zip"], KIDSA=["py", "so", "missing"], KIDSB=["missing"],
+                    STUBMODES=["none", "inpkg"], TOPFAULTS=["none"], KIDFAULTS=["none"]),
         "siblings": dom(KIDSA=["both", "py", "pyi", "so", "missing"], KIDSB=["both", "so", "missing"], TOPS=["py", "pyi", "ns", "so"],
                         TOPFAULTS=["none", "raises"], KIDFAULTS=["none", "raises", "exit"]),
         "stubs": dom(STUBMODES=["inpkg", "ext", "find", "find+ext"], KIDSA=["py", "pyi", "so", "missing"], KIDSB=["missing", "so"],
@@ -128,7 +133,7 @@ DOMAINS = {
 MODEL_BUGS = {"allowFirst": "CatchAllowFirst", "noReraise": "CatchNoReraise", "noFinally": "CatchNoFinally", "stubsDynamic": "CatchStubsDynamic",
               "externalInspect": "CatchExternalInspect", "pydInspected": "CatchPydInspected", "guardedRestore": "CatchGuardedRestore",
               "probeOnMiss": "CatchProbeOnMiss", "gitDropsAllow": "CatchGitDropsAllow",
-              "cachedFlag": "CatchCachedFlag", "skipSwapOnPath": "CatchSkipSwapOnPath"}
+              "cachedFlag": "CatchCachedFlag", "skipSwapOnPath": "CatchSkipSwapOnPath", "walkNoFinally": "CatchWalkNoFinally"}
 
 EVENT_FIELDS = {
     "LoadExtensions": ["touched"], "Load": ["pkg"], "ResolveExternal": ["pkg"], "FindSpec": ["pkg", "res", "stubs", "viastubs"],
@@ -143,7 +148,7 @@ JVM_TINY = {"JAVA_TOOL_OPTIONS": "-XX:TieredStopAtLevel=1 -XX:ParallelGCThreads=
 JVM_MAIN = {"JAVA_TOOL_OPTIONS": "-XX:ParallelGCThreads=2"}
 ACTIONS = ["LoadExtensions", "LoadMain", "ResolveExternal", "FindSpec", "ChooseAgent", "Visit", "Submodule", "CreateNsParent", "SkipSubmodule", "DynImport",
            "EnterSysPath", "TryImport", "Import", "ImportOk", "ImportFail", "ExitSysPath", "DynImportOk", "DynImportFail", "InspectTop", "Inspected",
-           "InspectFail", "WrapError", "StubPass", "LoadReturn", "LoadMissing", "LoadRaise", "Return", "Raise", "Checkout", "Cleanup", "SetOptions"]
+           "InspectFail", "WrapError", "StubPass", "LoadReturn", "LoadMissing", "LoadRaise", "Return", "Raise", "Checkout", "Cleanup", "SetOptions", "WalkFail"]
 LEGAL_OUTCOMES = ("Return", "ModuleNotFoundError", "ImportError", "LoadingError")
 
 
@@ -412,7 +417,7 @@ def selftest_model_bugs(run: Run):
 # ---- main -------------------------------------------------------------------------------------------------------
 def sig_of(cfg: dict, clause: str, r: dict) -> dict:
     return {"clause": clause, "mode": mode_of(cfg), "top": cfg["file"]["p"], "stubs": cfg["stubs"] + ("+find" if cfg["findstubs"] else ""),
-            "ext": cfg["extstyle"] if cfg["extstyle"] == "none" else cfg["extstyle"] + ":" + cfg["extkind"], "pathmut": cfg.get("pathmut", "none"),
+            "ext": cfg["extstyle"] if cfg["extstyle"] == "none" else cfg["extstyle"] + ":" + cfg["extkind"], "pathmut": cfg.get("pathmut", "none"), "walk": cfg.get("walk", "none"),
             "call": cfg.get("entry", "load") + ("+onpath" if cfg.get("onpath") else "") + ":" + cfg.get("objspec", "name") + ("" if cfg.get("submodules", True) else "+nosub"), "outcome": r["outcome"]}
 
 
@@ -593,6 +598,9 @@ def _main(run: Run, tier: str, rnd: random.Random, workdir: str, ext_so):
                 name = "StubPass" if (e["ev"] == "ChooseAgent" and e["m"] == "s" and any(x["ev"] == "Submodule" or x["ev"] == "Visit" or x["ev"] == "Inspected" for x in ln["events"][:ln["events"].index(e)])) else e["ev"]
                 if e["ev"] == "LoadRaise" and e.get("exc") == "KeyError":
                     name = "LoadMissing"
+                k = ln["events"].index(e)
+                if e["ev"] == "InspectFail" and k > 0 and ln["events"][k - 1]["ev"] == "DynImportOk":
+                    name = "WalkFail"          # the import succeeded, the member walk raised
                 seen_ev[name] = seen_ev.get(name, 0) + 1
     seen_ev["LoadMain"] = seen_ev.pop("Load", 0)
     never = [a for a in ACTIONS if not seen_ev.get(a)]
